@@ -523,7 +523,9 @@ def evaluate__ceiling_and_floor_functions(self: XPathFunction, context: ta.Conte
         elif isinstance(arg, bool) or not isinstance(arg, (int, float, decimal.Decimal)):
             raise TypeError(f"the argument has type {type(arg)!r} instead of xs:numeric")
 
-        if self.symbol == 'floor':
+        if isinstance(arg, int):
+            return int(arg)  # an xs:integer, also for a value of a derived integer type
+        elif self.symbol == 'floor':
             result = type(arg)(math.floor(arg))
         else:
             result = type(arg)(math.ceil(arg))
@@ -554,7 +556,9 @@ def evaluate__round(self: XPathFunction, context: ta.ContextType = None) -> ta.O
     try:
         number = decimal.Decimal(arg)
         assert isinstance(arg, (int, float, decimal.Decimal))
-        if number > 0:
+        if isinstance(arg, int):
+            return int(arg)  # an xs:integer, also for a value of a derived integer type
+        elif number > 0:
             return type(arg)(number.quantize(decimal.Decimal('1'), rounding='ROUND_HALF_UP'))
         else:
             return type(arg)(number.quantize(decimal.Decimal('1'), rounding='ROUND_HALF_DOWN'))
